@@ -19,6 +19,8 @@ pub use crate::writer::{ShmWrite, ShmWriter};
 pub mod common;
 mod reader;
 mod shm_header;
+#[cfg(feature = "verif")]
+pub mod verif;
 mod writer;
 
 use errno::Errno;
